@@ -170,7 +170,7 @@ void misc_string_ops(Enumerator &E) {
     // one string operand (+ optional second), variants listed per kind
     struct K { uint16_t kind; const char *name; unsigned nvar; };
     const K ks[] = {{S_SUBSTR, "substr", 8}, {S_TRIM, "trim", 3}, {S_CASE, "case", 2}, {S_TOKENIZE, "tokenize", 1}, {S_TO_BUF, "to_buf", 6},
-                    {S_TO_STD, "to_std", 12}, {S_CODEC, "codec", 4}, {S_FROM_NUM, "from_num", 11}, {S_LITERAL, "literal", 5}, {S_FILL, "fill", 1},
+                    {S_TO_STD, "to_std", 12}, {S_OVERLOADS, "overloads", 10}, {S_CODEC, "codec", 4}, {S_FROM_NUM, "from_num", 11}, {S_LITERAL, "literal", 5}, {S_FILL, "fill", 1},
                     {S_NEW_DEFAULT, "new_default", 1}, {S_CLEAR, "clear", 1}, {S_HASH, "hash", 1}, {S_READ, "read", 5}};
     for (const K &k : ks)
         for (unsigned var = 0; var < k.nvar; var++)
